@@ -101,6 +101,19 @@ def main():
     payload = json.load(sys.stdin)
     out = []
     with tempfile.TemporaryDirectory(prefix='lpverif-c17-') as root:
+        # earlier in the same process the directories that will become packages were plain folders holding a script that was named once
+        # (a project that grows an __init__.py between two profiling runs of one session): nothing remembered from then may come back
+        from line_profiler.autoprofile.util_static import modpath_to_modname
+        loose = []
+        d = root
+        for comp in ('pkg', 'sub', 'deep'):
+            d = os.path.join(d, comp)
+            os.makedirs(d, exist_ok=True)
+            f = os.path.join(d, 'loose_script.py')
+            open(f, 'w').close()
+            loose.append(f)
+        for f in reversed(loose):
+            modpath_to_modname(f)
         for case in payload['cases']:
             try:
                 out.append(unit(case) if 'modname' in case else tree_case(case, root))
